@@ -100,6 +100,9 @@ def run(ctx):
         got.append((s, "none" if m is None else "%s|%d" % (enc(m.group(1)), len(s) - m.end())))
         req.append("match|" + enc(s))
         # the property's own reading: a declaration needs '#', 'coding', ':' or '=' and a name
+        if m is not None and "\n" in m.group(0)[:-1]:
+            ctx.violation({"first_lines": s, "matched": m.group(0), "group": m.group(1)}, "the coding declaration does not stand on the first line: the match runs across a line end",
+                          tags=["c18.comment.first-line"])
         if m is not None and not (s.startswith("#") and "coding" in s and m.group(1)):
             ctx.violation({"first_lines": s, "group": m.group(1)}, "text without a coding declaration was taken as one", tags=["c18.comment.shape"])
     if model_ok:
